@@ -33,3 +33,18 @@ Definition m_reduce (o : redop) (s : list qrow) (obs : option qrow) : bool :=
   match obs with Some r => row_eqb (reduce1 (red_fn o) s) r | None => false end.
 Definition m_baseline (d dbl : nat) (divisive : bool) (o : redop) (lo : Z) (hi : option Z) (s bl : list qrow) obs : bool :=
   mobs_is (baseline1 d dbl divisive (red_fn o) lo hi s bl) obs.
+(* z: np.nanstd is the table of the exact standard deviations supplied by the harness (rows without one -- the
+   deviation is irrational, or some float operation is inexact -- are not compared) *)
+Definition std_table (sds : list (option Q)) (s : list qrow) (a : qrow) : option Q :=
+  match find (fun p => list_eqb sample_eqb (fst p) a) (combine s sds) with
+  | Some (_, sd) => sd
+  | None => None
+  end.
+Definition m_z (sds : list (option Q)) (s : list qrow) obs : bool :=
+  match z1 (std_table sds s) s, obs with
+  | Some m, Some o =>
+      Nat.eqb (length m) (length o) && Nat.eqb (length sds) (length o) &&
+      forallb (fun t => match t with (Some _, mrow, orow) => row_eqb mrow orow | (None, _, _) => true end)
+              (combine (combine sds m) o)
+  | _, _ => false
+  end.
